@@ -193,4 +193,14 @@ theorem viaCache_ok (f : Stores → Res × Stores) (S : Stores) (h : (viaCache f
   cases hf : f S with
   | mk r S' => cases r <;> simp [hf] at h ⊢
 
+theorem loopMsgs_break (fs : List (Stores → Res × Stores)) :
+    ∀ (S : Stores) (e : Res), e = .ok → loopMsgs true fs S e = runMsgs fs S := by
+  induction fs with
+  | nil => intro S e he; subst he; rfl
+  | cons f fs ih =>
+    intro S e _
+    simp only [loopMsgs, runMsgs]
+    cases hf : f S with
+    | mk r X => cases r <;> simp [ih]
+
 end FxVerif.Model.C16
